@@ -636,7 +636,7 @@ func execSt(toks []string) string {
 	var carry []byte
 	adj := map[int]int{}
 	stopAfter := map[int]bool{} // keyed by the wire offset of the frame start
-	var hdrStarts []int // wire offsets of the header-bearing items, in order
+	var hdrStarts []int         // wire offsets of the header-bearing items, in order
 	bounds := map[int]bool{}
 	var hdrRanges [][2]int
 	contOK := map[int]bool{}
